@@ -17,6 +17,8 @@ Families (field fam)
   compose : every built-in applied to what the any-typed built-ins pass through, expression references in containers included (C05, C06)
   errpair : two failing sub-expressions under every binary construct, each with a succeeding partner too: which failure is reported (C01, C06)
   deep    : every nesting constructor at depths 1..8 on a document nested to match (C01)
+  keyword : field names spelled true / false / null / and / or / not / in, in every operand position (C01, C03)
+  litop   : every postfix operator, comparison and call applied directly to a literal operand (C01, C03, C07)
   alias   : the same document node reached twice (both operands of a comparison, two arguments of a call) (C01, C10, C06)
 """
 import itertools, json, os, sys
@@ -78,7 +80,7 @@ for x, y in itertools.product(atoms[:7], repeat=2):       # without the inner pa
     add("bool", "!(%s && %s)" % (x, y), bdoc)
     add("bool", "!(%s || %s)" % (x, y), bdoc)
     add("bool", "!%s && %s" % ("t" if x == "t" else "f", y), bdoc)
-ratoms = ["age < `65`", "age >= `65`", "ok", "age == `70`", "!ok", "age"]
+ratoms = ["age < `65`", "age >= `65`", "ok", "age == `70`", "!ok", "age", "age <= `70`", "age > `18`"]
 for x, y in itertools.product(ratoms, repeat=2):
     for shape in ("rows[?%s && %s].age", "rows[?!(%s && %s)].age", "rows[?!(%s || %s)].age", "rows[?!(%s) || %s].age", "rows[?(%s) || !(%s)].age"):
         add("bool", shape % (x, y), bdoc)
@@ -212,6 +214,29 @@ for d in range(1, 9):
              "mixed": "a" + ("[*].a[0] | [?a].b" * d)[: 17 * d]}
     for k, t in forms.items():
         add("deep", t, dd)
+
+# ---------------------------------------------------------------- keyword
+# identifiers spelled like the keywords of other languages are ordinary field names in every position
+kdoc = {"true": 1, "false": 0, "null": "n", "and": [1], "or": {"not": 2}, "not": None, "x": True, "y": None, "c": 1, "in": "i", "items": [{"on": True, "true": 1}, {"on": 1, "true": True}, {"on": None}]}
+for w in ("true", "false", "null", "and", "or", "not", "in"):
+    for t in ["%s", "x == %s", "%s == x", "c == %s", "%s == c", "y == %s", "[%s, x]", "{k: %s}", "%s || x", "x || %s", "!%s", "%s.not", "items[?on == %s]", "items[?%s == on]",
+              "items[*].%s", "%s[0]", "not_null(%s)", "%s != %s", "x && %s", "%s | [@]", "items[?on == %s].on | [0]", "(%s)", "x < %s", "%s >= c", "length(to_array(%s))",
+              "items[?%s]", "items[*].[on == %s]"]:
+        add("keyword", t.replace("%s", w), kdoc)
+
+# ---------------------------------------------------------------- litop
+# every postfix operator, comparison and a few calls applied directly to a literal operand (nothing may be decided at parse time
+# differently from what a search decides)
+lits = ["`[10, 20, 30]`", "`{\"a\": 1, \"b\": [1, 2]}`", "`\"abc\"`", "`1`", "`null`", "`true`", "`[]`", "`[[1, 2], [3, 4]]`", "'raw'", "`[null, 0, \"\"]`", "`{}`", "`-1.5`"]
+posts = ["[0]", "[-1]", "[-2]", "[5]", "[-5]", "[::0]", "[1:]", "[::-1]", "[:-1]", "[-9:2]", ".a", ".b[0]", "[*]", "[]", "[?@]", "[?!@]", ".*", " | [0]", " | [-1]", " == `1`", " < `2`", " || `0`",
+         " && `0`", "[0][0]", "[-1][-1]", "[*][0]", "[1:][0]", "[::0].a", "[-1] == `30`", ".a == `1`", "[0:0]", "[3:1:-1]", "[-1:]", "[:1][-1]"]
+for l, q in itertools.product(lits, posts):
+    add("litop", l + q, {"a": 1})
+    add("litop", "(" + l + ")" + q, {"a": 1})
+for l in lits:
+    for t in ["length(%s)", "type(%s)", "to_string(%s)", "to_array(%s)[-1]", "not_null(%s)", "!%s", "%s == %s", "[%s][0]", "{k: %s}.k", "a || %s", "reverse(%s)", "keys(%s)", "abs(%s)",
+              "foo[?@ == %s[-1]]", "max(%s)", "sort(%s)[-1]", "%s | @[-1]", "contains(%s, `1`)", "join(',', %s)"]:
+        add("litop", t.replace("%s", l), {"a": 1, "foo": [30, 4, [3, 4], "c"]})
 
 out = os.path.join(VERIF, "spec", "gen", "eval_pools.ndjson")
 with open(out, "w") as f:
